@@ -184,6 +184,7 @@ func (s *Silencer) Mutes(ctx context.Context, lset model.LabelSet) bool {
 
 	// Get the cached entry for this fingerprint.
 	cachedEntry := s.cache.get(fp)
+	verifYield("mutes:after-cache-read", fp)
 
 	var (
 		oldSils    []*pb.Silence
@@ -191,6 +192,7 @@ func (s *Silencer) Mutes(ctx context.Context, lset model.LabelSet) bool {
 		newVersion = cachedEntry.version
 	)
 	cacheIsUpToDate := cachedEntry.version == s.silences.Version()
+	verifYield("mutes:after-version-read", fp)
 
 	if cacheIsUpToDate && cachedEntry.count() == 0 {
 		// Very fast path: no new silences have been added and this lset was not
@@ -210,11 +212,13 @@ func (s *Silencer) Mutes(ctx context.Context, lset model.LabelSet) bool {
 		// there were old silences for this lset, we need to find them to check if they
 		// are still active/pending, or have ended.
 		var err error
+		verifYield("mutes:before-old-query", fp)
 		oldSils, _, err = s.silences.Query(
 			ctx,
 			QIDs(cachedEntry.silenceIDs...),
 			QState(SilenceStateActive, SilenceStatePending),
 		)
+		verifYield("mutes:after-old-query", fp)
 		if err != nil {
 			span.SetStatus(codes.Error, err.Error())
 			span.RecordError(err)
@@ -231,12 +235,14 @@ func (s *Silencer) Mutes(ctx context.Context, lset model.LabelSet) bool {
 		// On this branch we WILL update newVersion since we can be sure we've seen any silences
 		// newer than markerVersion.
 		var err error
+		verifYield("mutes:before-new-query", fp)
 		newSils, newVersion, err = s.silences.Query(
 			ctx,
 			QSince(cachedEntry.version),
 			QState(SilenceStateActive, SilenceStatePending),
 			QMatches(lset),
 		)
+		verifYield("mutes:after-new-query", fp)
 		if err != nil {
 			span.SetStatus(codes.Error, err.Error())
 			span.RecordError(err)
@@ -253,6 +259,7 @@ func (s *Silencer) Mutes(ctx context.Context, lset model.LabelSet) bool {
 	totalSilences := len(oldSils) + len(newSils)
 	if totalSilences == 0 {
 		// Easy case, neither active nor pending silences anymore.
+		verifYield("mutes:before-cache-write", fp)
 		s.cache.set(fp, newCacheEntry(newVersion))
 		span.AddEvent("No silences to match", trace.WithAttributes(
 			attribute.Int("alerting.silences.count", totalSilences),
@@ -303,6 +310,7 @@ func (s *Silencer) Mutes(ctx context.Context, lset model.LabelSet) bool {
 		"pending", len(allIDs)-len(activeIDs),
 	)
 
+	verifYield("mutes:before-cache-write", fp)
 	s.cache.set(fp, newCacheEntry(newVersion, allIDs...))
 
 	t := trace.WithAttributes(
